@@ -33,7 +33,7 @@ def run(tier, seed, replay):
     totals = {}
     nproc = 3 if tier == "quick" else 12
     for i in range(nproc):     # fresh processes: different map hash seeds
-        code, out, err, wall = lib.run_bin(binp, ["-mode", "c09", "-in", rf, "-aux", pf, "-reserved", resf, "-seed", str(seed)], timeout=3000, cwd=moddir)
+        code, out, err, wall = lib.run_bin(binp, ["-mode", "c09", "-in", rf, "-aux", pf, "-reserved", resf, "-seed", str(seed), "-order", str(i)], timeout=3000, cwd=moddir)
         if code != 0:
             raise lib.Broken("codec harness (c09) failed: %s" % err[-3000:])
         for line in out.splitlines():
@@ -41,17 +41,19 @@ def run(tier, seed, replay):
             if o["kind"] == "violation":
                 verdict.add(o["key"], o["what"], o["case"])
             elif o["kind"] == "stats":
-                digests.append(o["digest"])
+                digests.append(o["digests"])
                 for k, v in o["stats"].items():
                     totals[k] = totals.get(k, 0) + v
-    if len(set(digests)) != 1:
-        verdict.add("C09/output-differs-between-processes", "the bytes produced for the same values differ between fresh processes: digests %s" % sorted(set(digests)), dict(digests=digests))
+    for fl in sorted(set(k for d in digests for k in d)):
+        vals = set(d.get(fl) for d in digests)
+        if len(vals) != 1:
+            verdict.add("C09/output-differs-between-processes/" + fl, "the bytes the %s flavour produces for the same values differ between fresh processes (which use the flavours in different orders): digests %s" % (fl, sorted(map(str, vals))), dict(flavour=fl, digests=digests))
     cov.update(totals)
     cov["fresh_processes"] = nproc
     cov["traces_validated_against_impl"] = 0
     cov["evaluations"] = totals.get("encodings", 0)
     cov["distinct_nontrivial"] = len(perms) + len(rows)
-    cov["rule"] = "one case = one supply order of 1..4 keys (every permutation of every key subset, replayed through WriteMap of 5 writer flavours, BuildQueryParams and the batch key set) or one VT value encoded three times in each of 5 flavours; everything repeated in fresh processes and compared by digest"
+    cov["rule"] = "one case = one supply order of 1..4 keys (every permutation of every key subset, replayed through WriteMap of 5 writer flavours, BuildQueryParams and the batch key set) or one VT value encoded three times in each of 5 flavours; everything repeated in fresh processes that use the flavours in different orders, compared by per-flavour digest"
     cov["exhaustive"] = True
     code, nv = verdict.finish()
     lib.write_evidence(PROP, tier, seed, cov, [
